@@ -32,7 +32,7 @@ package main
 //@ ensures [sources] result == nil ==> (forall i int, j int :: 0 <= i && i < len(protection.Data) && 0 <= j && j < len(protection.Data[i].SignedAttestations) ==> wmAttS(bytes(fileKey(protection.Data[i]))) >= parsed(protection.Data[i].SignedAttestations[j].SourceEpoch))
 //@ ensures [targets] result == nil ==> (forall i int, j int :: 0 <= i && i < len(protection.Data) && 0 <= j && j < len(protection.Data[i].SignedAttestations) ==> wmAttT(bytes(fileKey(protection.Data[i]))) >= parsed(protection.Data[i].SignedAttestations[j].TargetEpoch))
 //@ ensures [neverlower] result == nil ==> (forall k [48]byte :: wmPropL(bytes(k)) >= old(wmPropL(bytes(k))) && wmAttS(bytes(k)) >= old(wmAttS(bytes(k))) && wmAttT(bytes(k)) >= old(wmAttT(bytes(k))))
-//@ loop #1
+//@ loop #1 over range protection.Data
 //@ invariant [range] 0 <= _n && _n <= len(protection.Data) && protectionMap != nil && fresh(protectionMap) && db == old(db)
 //@ invariant [existing] forall k [48]byte :: k in existingProtection ==> existingProtection[k] != nil && existingProtection[k].HighestProposedSlot == wmPropL(bytes(k)) && existingProtection[k].HighestAttestedSourceEpoch == wmAttS(bytes(k)) && existingProtection[k].HighestAttestedTargetEpoch == wmAttT(bytes(k))
 //@ invariant [existing-old] forall k [48]byte :: k in existingProtection ==> allocated(existingProtection[k])
@@ -40,12 +40,12 @@ package main
 //@ invariant [blocks] forall i int, j int :: 0 <= i && i < _n && 0 <= j && j < len(protection.Data[i].SignedBlocks) ==> finL(protectionMap, fileKey(protection.Data[i])) >= parsed(protection.Data[i].SignedBlocks[j].Slot)
 //@ invariant [sources] forall i int, j int :: 0 <= i && i < _n && 0 <= j && j < len(protection.Data[i].SignedAttestations) ==> finS(protectionMap, fileKey(protection.Data[i])) >= parsed(protection.Data[i].SignedAttestations[j].SourceEpoch)
 //@ invariant [targets] forall i int, j int :: 0 <= i && i < _n && 0 <= j && j < len(protection.Data[i].SignedAttestations) ==> finT(protectionMap, fileKey(protection.Data[i])) >= parsed(protection.Data[i].SignedAttestations[j].TargetEpoch)
-//@ loop #2
+//@ loop #2 over range protection.Data[i].SignedAttestations
 //@ invariant [range] 0 <= _n && _n <= len(protection.Data[_n1].SignedAttestations) && 0 <= _n1 && _n1 < len(protection.Data) && keyProtection != nil && fresh(keyProtection) && key == fileKey(protection.Data[_n1]) && db == old(db)
 //@ invariant [notyet] forall k [48]byte :: k in protectionMap ==> protectionMap[k] != keyProtection
 //@ invariant [kp] keyProtection.HighestProposedSlot == 0 - 1 && keyProtection.HighestAttestedSourceEpoch >= 0 - 1 && keyProtection.HighestAttestedTargetEpoch >= 0 - 1 && (keyProtection.HighestAttestedSourceEpoch == 0 - 1 ==> keyProtection.HighestAttestedTargetEpoch == 0 - 1 && _n == 0)
 //@ invariant [seen] forall j int :: 0 <= j && j < _n ==> keyProtection.HighestAttestedSourceEpoch >= parsed(protection.Data[_n1].SignedAttestations[j].SourceEpoch) && keyProtection.HighestAttestedTargetEpoch >= parsed(protection.Data[_n1].SignedAttestations[j].TargetEpoch)
-//@ loop #3
+//@ loop #3 over range protection.Data[i].SignedBlocks
 //@ invariant [range] 0 <= _n && _n <= len(protection.Data[_n1].SignedBlocks) && 0 <= _n1 && _n1 < len(protection.Data) && keyProtection != nil && fresh(keyProtection) && key == fileKey(protection.Data[_n1]) && db == old(db)
 //@ invariant [notyet] forall k [48]byte :: k in protectionMap ==> protectionMap[k] != keyProtection
 //@ invariant [kp] keyProtection.HighestProposedSlot >= 0 - 1 && keyProtection.HighestAttestedSourceEpoch >= 0 - 1 && keyProtection.HighestAttestedTargetEpoch >= 0 - 1 && (keyProtection.HighestAttestedSourceEpoch == 0 - 1 ==> keyProtection.HighestAttestedTargetEpoch == 0 - 1 && len(protection.Data[_n1].SignedAttestations) == 0)
@@ -66,7 +66,7 @@ package main
 //@ hint-after append@1 [last] result[len(res.Data)] == data
 //@ hint-after append@1 [new] fileKey(result[len(res.Data)]) == key48(v.PubKey)
 //@ hint-after append@1 [old] forall i int :: 0 <= i && i < len(res.Data) ==> result[i] == res.Data[i]
-//@ loop #1
+//@ loop #1 over range protection
 //@ invariant [res] res != nil && fresh(res) && fresh(res.Data) && allocated(res.Data)
 //@ invariant [alloc] forall i int :: 0 <= i && i < len(res.Data) ==> allocated(res.Data[i]) && allocated(res.Data[i].SignedBlocks) && allocated(res.Data[i].SignedAttestations) && (forall j int :: 0 <= j && j < len(res.Data[i].SignedBlocks) ==> allocated(res.Data[i].SignedBlocks[j])) && (forall j int :: 0 <= j && j < len(res.Data[i].SignedAttestations) ==> allocated(res.Data[i].SignedAttestations[j]))
 //@ invariant [nonnil] forall i int :: 0 <= i && i < len(res.Data) ==> res.Data[i] != nil
